@@ -167,6 +167,9 @@ func (a *Unary) eval(val Value) Value {
 		return OpNot(val)
 	case tok.BitNot:
 		return OpBitNot(val)
+	case tok.Div:
+		// reciprocal: the folder makes this the first factor of c / x
+		return OpDiv(One, val)
 	case tok.LParen:
 		return val
 	}
